@@ -264,6 +264,19 @@ impl PartialEq for CaoLangObject {
             (CaoLangObjectBody::String(lhs), CaoLangObjectBody::String(rhs)) => {
                 lhs.as_str().eq(rhs.as_str())
             }
+            // function values have to be equal to themselves, otherwise a table can never find
+            // an entry again that is keyed by one (and the collector, which looks entries up by
+            // key, does not see the entry either)
+            (CaoLangObjectBody::Function(lhs), CaoLangObjectBody::Function(rhs)) => {
+                lhs.handle == rhs.handle && lhs.arity == rhs.arity
+            }
+            (CaoLangObjectBody::NativeFunction(lhs), CaoLangObjectBody::NativeFunction(rhs)) => {
+                lhs.handle == rhs.handle
+            }
+            (CaoLangObjectBody::Closure(_), CaoLangObjectBody::Closure(_))
+            | (CaoLangObjectBody::Upvalue(_), CaoLangObjectBody::Upvalue(_)) => {
+                std::ptr::eq(self, other)
+            }
             _ => false,
         }
     }
